@@ -2,6 +2,8 @@ package engine
 
 import (
 	"fmt"
+	"os"
+	"runtime/debug"
 	"go/token"
 	"go/types"
 	"sort"
@@ -27,6 +29,9 @@ func Generate(w *World, fn *ssa.Function, opt Options) (res *FuncResult) {
 	defer func() {
 		if r := recover(); r != nil {
 			res.GenErr = fmt.Sprintf("generator panic: %v", r)
+			if os.Getenv("GOVC_DEBUG") != "" {
+				res.GenErr += "\n" + string(debug.Stack())
+			}
 		}
 	}()
 	c := NewCtx(w, fn, opt)
@@ -160,6 +165,14 @@ func (c *Ctx) runTop() {
 	ct := c.W.Contracts[ShortName(fn)]
 	fr.contract = ct
 	c.topFrame = fr
+	if ct != nil {
+		for n := range ct.Trace {
+			c.trackedByKey[sanitize(n)] = n
+		}
+		for n := range ct.AtCalls {
+			c.trackedByKey[sanitize(n)] = n
+		}
+	}
 	st := c.initialState()
 	if c.scan {
 		st = &State{pc: True, heaps: map[string]T{}}
@@ -496,7 +509,7 @@ func (fr *frame) contractCall(ct *Contract, callee *ssa.Function, cc *ssa.CallCo
 	}
 	// effects
 	if !ct.HasModifies || ct.ModAll {
-		c.havocAll(st)
+		c.havocAllCallee(st, cc)
 	} else if !ct.Pure {
 		// allocation may grow
 		old := c.getHeap(st, HAlloc)
